@@ -44,7 +44,9 @@ def c03_bombs(r, seed, tier, model_ok):
         if k == 10: return f"({v} {hole} (ㄱㅇㄱ ㅎ) ㅎㄷ) ({hole} ㅎ) ㅅㄷㅎㄷ", "nested"
         if k == 12:   # list elements handed to functions that never look at them: folds (both directions), map, filter, pipe / collect / spread
             lst = call("ㅁㄹ", [v, hole, val()])          # the bomb is an INTERMEDIATE element: never the fold's result
-            kk = R.randrange(8)
+            kk = R.randrange(10)
+            if kk == 8: return call("ㅈㄷ", [call("ㅁㄷ", [lst, "ㅁㄹ"])]), "map-builtin-literal-len"          # ㅁㄹ is the built-in that does not look at its argument (ㄷㅂ and ㄱㅅ evaluate theirs)
+            if kk == 9: return f"{E(R.choice([0, 2]))} {call('ㅁㄷ', [lst, 'ㅁㄹ'])} ㅎㄴ", "map-builtin-literal-other-element"
             if kk == 0: return call("ㅅㄹ", ["(ㄴㅇㄱ ㅎ)", lst]), "left-fold-ignores-accumulator"          # f(acc, x) = x
             if kk == 1: return call("ㅅㄹ", ["(ㄴ ㅎ)", E(0), lst]), "left-fold-constant"
             if kk == 2: return call("ㅅㄹ", [lst, "(ㄱㅇㄱ ㅎ)"]), "right-fold-ignores-accumulator"          # f(x, acc) = x
